@@ -68,6 +68,16 @@ pub mod pt {
     pub const LOOP_AFTER_STOPPING: u32 = 42;
     pub const CELL_NEW_AFTER_NAME: u32 = 43;
 
+    // used by ractor_cluster
+    pub const CL_DELIVER_LOCAL: u32 = 50;
+    pub const CL_SPAWN_PROXY: u32 = 51;
+    pub const CL_PG_JOIN: u32 = 52;
+    pub const CL_AUTH_OK: u32 = 53;
+    /// kinds for `override_u64`
+    pub const OV_CONNECTION_ID: u32 = 1;
+    pub const OV_SERVER_CHALLENGE: u32 = 2;
+    pub const OV_CLIENT_CHALLENGE: u32 = 3;
+
     pub const IN_LOCK_BASE: u32 = 1000;
     pub const PG_JOIN_IN_ENTRY: u32 = 1001;
     pub const LINK_IN_LOCK: u32 = 1002;
